@@ -2,6 +2,7 @@ use crate::engine::{CaseResult, Engine, Tier};
 use serde_json::Value;
 
 pub mod c01;
+pub mod c06;
 pub mod c07;
 pub mod c08;
 pub mod common;
@@ -16,6 +17,7 @@ pub struct Prop {
 pub fn all() -> Vec<Prop> {
     vec![
         Prop { id: "C01", level: "exploration", run: c01::run, replay: c01::replay },
+        Prop { id: "C06", level: "exploration", run: c06::run, replay: c06::replay },
         Prop { id: "C07", level: "exploration", run: c07::run, replay: c07::replay },
         Prop { id: "C08", level: "exploration", run: c08::run, replay: c08::replay },
     ]
